@@ -517,6 +517,11 @@ func (i *Interface) Delete(key string) error {
 
 	i.options.Apply(r)
 	r.Meta().Delete()
+
+	// Remove the record from the cache, or the interface would keep serving
+	// the deleted record from there.
+	i.updateCache(r, true, true, 0)
+
 	return db.Put(r)
 }
 
